@@ -1,18 +1,74 @@
-import LinfaSpec.Model.LeastSquares
+import LinfaSpec.Proofs.LeastSquares
+import Mathlib.Algebra.Order.Field.Rat
 
 /-!
 # C11 — least-squares estimators return a minimiser of their documented objective
-(theorems are added below; this first version only fixes a shape lemma)
+
+Certificate-style theorems about `LinfaSpec.LeastSquares` (the model of linfa-elasticnet's
+`coordinate_descent`, `duality_gap`, `fit`, and of the documented objective), over any ordered
+field.  A design matrix is a list of columns `C`, each as long as the target `y`.
+`objective C y w b l1r pen n` is `n` times the documented objective
+`1/(2n)‖y − Xw − b‖² + pen·(l1r‖w‖₁ + (1−l1r)/2‖w‖²)`; the solver's duality gap is on that scale.
+Hypotheses are the code's guards: `0 ≤ l1_ratio ≤ 1`, `penalty ≥ 0` (`ParamGuard`), `n = nrows ≥ 0`.
 -/
 namespace LinfaSpec.Props.C11
 open LinfaSpec LinfaSpec.LeastSquares
 
-/-- `block_soft_thresholding` keeps the number of tasks -/
-theorem blockSoft_length {α : Type} [Add α] [Sub α] [Mul α] [Div α] [LE α] [DecidableLE α]
-    [OfNat α 0] [OfNat α 1] [Transc α] (x : List α) (thr : α) :
-    (blockSoft x thr).length = x.length := by
-  unfold blockSoft
-  simp only
-  split <;> simp
+variable {α : Type} [Field α] [LinearOrder α] [IsStrictOrderedRing α]
+
+/-- **The duality gap computed by `duality_gap` bounds the suboptimality**: for the running
+residual `r = y − Xw`, *no* coefficient vector `w'` lowers the objective by more than the gap —
+both branches of the code (`‖Xᵀr − l2·w‖_∞ > l1` with the rescaled dual point, and the plain one). -/
+theorem gap_bounds_suboptimality (contig : Bool) (C : List (List α)) (y w w' : List α) (l1r pen n : α)
+    (hC : ∀ c ∈ C, c.length = y.length) (hw : w.length = C.length) (hw' : w'.length = C.length)
+    (h0 : 0 ≤ l1r) (h1 : l1r ≤ 1) (hpen : 0 ≤ pen) (hn : 0 ≤ n) :
+    objective C y w 0 l1r pen n - objective C y w' 0 l1r pen n
+      ≤ dualityGap contig C y w (residual C y w 0) l1r pen n := by
+  have hl1 : 0 ≤ l1r * pen * n := mul_nonneg (mul_nonneg h0 hpen) hn
+  have hl2 : 0 ≤ (1 - l1r) * pen * n := mul_nonneg (mul_nonneg (sub_nonneg.mpr h1) hpen) hn
+  have hres : ∀ v, residual C y v 0 = List.zipWith (fun yi xi => yi - xi) y (matVec y.length C v) := by
+    intro v; simp [residual]
+  have hrl : (residual C y w 0).length = y.length := by
+    rw [hres]; simp [matVec_length _ _ _ hC]
+  generalize hl1e : l1r * pen * n = l1 at hl1
+  generalize hl2e : (1 - l1r) * pen * n = l2 at hl2
+  simp only [dualityGap, objective, penaltyTerm, dotS_eq, dotU_eq, dotC_eq, half_eq, normL1, sumS_eq,
+    absS_fun, hl1e, hl2e]
+  generalize hr : residual C y w 0 = r at hrl ⊢
+  have hdn0 := normMax_nonneg (List.zipWith (fun c wj => dot c r - wj * l2) C w)
+  have hdn := le_normMax (List.zipWith (fun c wj => dot c r - wj * l2) C w)
+  generalize normMax (List.zipWith (fun c wj => dot c r - wj * l2) C w) = dn at hdn0 hdn ⊢
+  rw [hres w']
+  by_cases h : l1 < dn
+  · rw [if_pos h]
+    have hdpos : 0 < dn := lt_of_le_of_lt hl1 h
+    have hc : 0 ≤ l1 / dn := div_nonneg hl1 hdn0
+    have hcd : l1 / dn * dn ≤ l1 := by rw [div_mul_cancel₀ _ (ne_of_gt hdpos)]
+    have key := weak_duality C y w w' r l1 l2 (l1 / dn) dn hC hw hw' hrl hl2 hc hcd hdn0 hdn
+    generalize l1 / dn = c at key ⊢
+    simp only []
+    nlinarith [key]
+  · rw [if_neg h]
+    have key := weak_duality C y w w' r l1 l2 1 dn hC hw hw' hrl hl2 zero_le_one
+      (by rw [one_mul]; exact le_of_not_gt h) hdn0 hdn
+    simp only []
+    nlinarith [key]
+
+example : objective (α := ℚ) [[1, 2, 3]] [-1, 0, 1] [1 / 7] 0 (1 / 2) 1 3
+      - objective [[1, 2, 3]] [-1, 0, 1] [1 / 9] 0 (1 / 2) 1 3
+    ≤ dualityGap false [[1, 2, 3]] [-1, 0, 1] [1 / 7] (residual [[1, 2, 3]] [-1, 0, 1] [1 / 7] 0) (1 / 2) 1 3 :=
+  gap_bounds_suboptimality false _ _ _ _ _ _ _ (by simp) (by simp) (by simp) (by norm_num) (by norm_num)
+    (by norm_num) (by norm_num)
+
+/-- the reported gap is **non-negative** (take `w' = w`) -/
+theorem gap_nonneg (contig : Bool) (C : List (List α)) (y w : List α) (l1r pen n : α)
+    (hC : ∀ c ∈ C, c.length = y.length) (hw : w.length = C.length)
+    (h0 : 0 ≤ l1r) (h1 : l1r ≤ 1) (hpen : 0 ≤ pen) (hn : 0 ≤ n) :
+    0 ≤ dualityGap contig C y w (residual C y w 0) l1r pen n := by
+  have := gap_bounds_suboptimality contig C y w w l1r pen n hC hw hw h0 h1 hpen hn
+  simpa using this
+
+example : 0 ≤ dualityGap (α := ℚ) true [[1, -1]] [2, 0] [1] (residual [[1, -1]] [2, 0] [1] 0) 1 (1 / 4) 2 :=
+  gap_nonneg true _ _ _ _ _ _ (by simp) (by simp) (by norm_num) (by norm_num) (by norm_num) (by norm_num)
 
 end LinfaSpec.Props.C11
